@@ -56,7 +56,8 @@ PROPS = {
         tie_filter=r'promise(Insert|Update)|callback|taskInsert|taskCompleteByRootId|shape|wiring|uniques',
         harness=[sysdiff('sysdiff-crashes', ['CreatePromise', 'CreatePromiseAndTask', 'CompletePromise', 'CreateCallback', 'CreateSubscription', 'ReadPromise', 'ClaimTask', 'CompleteTask'],
                          (25, 150), (600, 200), 'C01,C05,C08,C07', ['-routed', '50', '-fail', '15', '-crash', '6', '-smallcfg', '-known', 'F5'], (200, 150)),
-                 dict(bin='crashdiff', name='crashdiff', quick=['-rounds', '2', '-kills', '3'], thorough=['-rounds', '25', '-kills', '6'], search=['-rounds', '8', '-kills', '5'])],
+                 dict(bin='crashdiff', name='crashdiff', quick=['-rounds', '2', '-kills', '3'], thorough=['-rounds', '25', '-kills', '6'], search=['-rounds', '8', '-kills', '5']),
+                 dict(bin='txedge', name='txedge', quick=['-steps', '8'], thorough=['-steps', '60', '-callbacks', '150000'], search=['-steps', '24'])],
         rule=SYS_RULE + '; here 6% of the steps are a crash/restart (a new system.System and store object on the same sqlite file, volatile state dropped), so crashes fall before and after '
              'store commits, between the steps of every coroutine and in the middle of sweeps, also repeatedly; the dump monitors C01 (nothing disappears, completed rows final), C05 (no '
              'registration without its pending promise; a completion converted every registration), C08 (routed promise born with its task; completed promise has no live task) run on every '
@@ -267,7 +268,8 @@ PROPS = {
         modules=['Resonate.Properties.C14'],
         tie_filter=r'(promise|schedule)(Search|Insert|Update|Delete|Select)|shape|wiring|uniques',
         harness=[with_monitor(storediff('storediff-search', ['SearchPromises', 'SearchPromises', 'CreatePromise', 'UpdatePromise', 'SearchSchedules', 'CreateSchedule', 'DeleteSchedule', 'CreatePromiseAndTask'], (40, 40), (1000, 60), (300, 60)), 'C14,C01'),
-                 sysdiff('sysdiff-search', ['SearchPromises', 'SearchSchedules', 'CreatePromise', 'CompletePromise', 'CreateSchedule', 'DeleteSchedule'], (20, 120), (400, 150), 'C01', ['-fail', '10'], (150, 150))],
+                 sysdiff('sysdiff-search', ['SearchPromises', 'SearchSchedules', 'CreatePromise', 'CompletePromise', 'CreateSchedule', 'DeleteSchedule'], (20, 120), (400, 150), 'C01,C14', ['-fail', '10'], (150, 150)),
+                 sysdiff('sysdiff-search-focus', ['SearchPromises', 'SearchPromises', 'CreatePromise', 'CompletePromise', 'ReadPromise'], (15, 60), (400, 80), 'C01,C14', ['-focus', '-fail', '5'], (200, 80))],
         rule='storediff over search/create/complete/delete commands (populations grow to dozens of rows, prefix/suffix/infix patterns, every state subset, tag subsets, page sizes 1..100, cursors), every search that heads a batch is ALSO checked against an independent Go oracle of the property (matching set, newest first, first limit) evaluated on the previous implementation dump; sysdiff covers the coroutine (cursor construction, lazy time-out and re-search)',
         assumptions=['cursor MAC (jwt) is not modelled; the signed-cursor reject path is exercised by frontdiff/stack tests only',
                      'tag keys are plain JSON-path labels on sqlite (finding F14 is listed as known)'],
@@ -302,9 +304,11 @@ PROPS = {
     'C16': dict(
         modules=['Resonate.Properties.C16'],
         tie_filter=r'.*',
-        harness=[storediff('storediff-all', None, (40, 30), (1500, 40), (400, 40))],
+        harness=[storediff('storediff-all', None, (40, 30), (1500, 40), (400, 40)),
+                 dict(bin='txedge', name='txedge', quick=['-steps', '8'], thorough=['-steps', '60', '-callbacks', '150000'], search=['-steps', '24'])],
         divergence_is_violation=True,
-        rule='random batches of 1-4 transactions x 1-5 commands over all 27 command kinds on small shared id pools, from a fresh '
+        rule='txedge: the transaction deadline (TxTimeout) swept over the duration of a batch dominated by one slow command placed first / middle / last / last in the same transaction, on the real store; outcome must be all-failed-and-nothing-written or all-applied-and-everything-written (read back through an independent connection); non-trivial = deadline expired inside the batch. storediff: '
+             'random batches of 1-4 transactions x 1-5 commands over all 27 command kinds on small shared id pools, from a fresh '
              'file database per script; a case is one command; non-trivial = an alter command that affected >=1 row or a query '
              'that returned >=1 row (counted); compared: error/no-error per batch, every result, full dump of the five tables and '
              'sqlite_sequence after every batch',
